@@ -134,12 +134,14 @@ package callbacks
 //@   loop "range db.Statement.Schema.QueryClauses" exit-do clausesApplied = 1
 
 //@ func Update$1
-//@   tags C08
+//@   tags C08 C05
+//@   ensures driver-error-recorded: old(drvErrPending) == 0 ==> drvErrPending == 0 [C05]
 //@   loop "range db.Statement.Schema.UpdateClauses" invariant one-call-per-clause: addCalls == old(addCalls) + iter
 //@   loop "range db.Statement.Schema.UpdateClauses" exit-do clausesApplied = 1
 
 //@ func Delete$1
-//@   tags C08
+//@   tags C08 C05
+//@   ensures driver-error-recorded: old(drvErrPending) == 0 ==> drvErrPending == 0 [C05]
 //@   loop "range db.Statement.Schema.DeleteClauses" invariant one-call-per-clause: addCalls == old(addCalls) + iter
 //@   loop "range db.Statement.Schema.DeleteClauses" exit-do clausesApplied = 1
 
@@ -267,14 +269,99 @@ package callbacks
 //@   do idGoingDown = idGoingDown - pkField.AutoIncrementIncrement
 //@   do idGoingUp = idGoingUp + pkField.AutoIncrementIncrement
 //@ func Create$1
-//@   tags C03
+//@   tags C03 C05
+//@   ensures driver-error-recorded: old(drvErrPending) == 0 ==> drvErrPending == 0 [C05]
 //@   loop "i := db.Statement.ReflectValue.Len() - 1; i >= 0; i--" entry-do idGoingDown = insertID
 //@   loop "i := db.Statement.ReflectValue.Len() - 1; i >= 0; i--" invariant one-step-down-per-key-given: insertID == idGoingDown
+//@   loop "i := db.Statement.ReflectValue.Len() - 1; i >= 0; i--" invariant no-unrecorded-driver-error: old(drvErrPending) == 0 ==> drvErrPending == 0 [C05]
 //@   loop "i := 0; i < db.Statement.ReflectValue.Len(); i++" entry-do idGoingUp = insertID
 //@   loop "i := 0; i < db.Statement.ReflectValue.Len(); i++" invariant one-step-up-per-key-given: insertID == idGoingUp
+//@   loop "i := 0; i < db.Statement.ReflectValue.Len(); i++" invariant no-unrecorded-driver-error: old(drvErrPending) == 0 ==> drvErrPending == 0 [C05]
 //@ site generated-key-is-the-running-id
 //@   match calldyn Field.Set
 //@   in callbacks.Create$1
 //@   min-sites 3
 //@   assert key-given-is-the-running-id: is(arg2, int64) && arg2.(int64) == insertID [C03]
 //@   assert only-to-records-without-a-key: isZero [C03]
+
+//@ # ---------- C05: a failure of the statement's driver call is recorded on the operation ----------
+//@ # "Reports failure": whatever error ExecContext / QueryContext returns for the main statement is handed to AddError
+//@ # (which keeps it: C05 AddError contract) before the executor returns; the implicit transaction is then rolled back
+//@ # (CommitOrRollbackTransaction contract) instead of committed.
+//@ ghost drvErrPending drvErrTag drvErrBox
+//@ event invoke ConnPool.ExecContext
+//@   in callbacks.Create$1 callbacks.Update$1 callbacks.Delete$1 callbacks.Query callbacks.RawExec
+//@   do drvErrPending = ite(tagof(result1) != 0, 1, drvErrPending)
+//@   do drvErrTag = tagof(result1)
+//@   do drvErrBox = boxof(result1)
+//@ event invoke ConnPool.QueryContext
+//@   in callbacks.Create$1 callbacks.Update$1 callbacks.Delete$1 callbacks.Query callbacks.RawExec
+//@   do drvErrPending = ite(tagof(result1) != 0, 1, drvErrPending)
+//@   do drvErrTag = tagof(result1)
+//@   do drvErrBox = boxof(result1)
+//@ event call (*DB).AddError
+//@   in callbacks.Create$1 callbacks.Update$1 callbacks.Delete$1 callbacks.Query callbacks.RawExec
+//@   do drvErrPending = ite(tagof(arg1) == drvErrTag && boxof(arg1) == drvErrBox, 0, drvErrPending)
+//@ func Query RawExec
+//@   tags C05
+//@   ensures driver-error-recorded: old(drvErrPending) == 0 ==> drvErrPending == 0 [C05]
+
+//@ # ---------- C05/C13: the implicit transaction brackets the whole write pipeline ----------
+//@ # Hooks "use the operation's own transaction" and "everything the operation did is rolled back": in each of the
+//@ # create / update / delete pipelines the first callback registered is gorm:begin_transaction and the last one is
+//@ # gorm:commit_or_rollback_transaction (registration order is execution order: C17). Both are conditional on the
+//@ # default transaction being enabled (Match).
+//@ ghost writePipeline registeredInPipeline commitRegistered
+//@ event call (*callbacks).Create
+//@   in callbacks.RegisterDefaultCallbacks
+//@   requires previous-pipeline-closed: writePipeline == 1 ==> commitRegistered == 1 [C05]
+//@   do writePipeline = 1
+//@   do registeredInPipeline = 0
+//@   do commitRegistered = 0
+//@ event call (*callbacks).Update
+//@   in callbacks.RegisterDefaultCallbacks
+//@   requires previous-pipeline-closed: writePipeline == 1 ==> commitRegistered == 1 [C05]
+//@   do writePipeline = 1
+//@   do registeredInPipeline = 0
+//@   do commitRegistered = 0
+//@ event call (*callbacks).Delete
+//@   in callbacks.RegisterDefaultCallbacks
+//@   requires previous-pipeline-closed: writePipeline == 1 ==> commitRegistered == 1 [C05]
+//@   do writePipeline = 1
+//@   do registeredInPipeline = 0
+//@   do commitRegistered = 0
+//@ event call (*callbacks).Query
+//@   in callbacks.RegisterDefaultCallbacks
+//@   requires previous-pipeline-closed: writePipeline == 1 ==> commitRegistered == 1 [C05]
+//@   do writePipeline = 0
+//@ event call (*callbacks).Row
+//@   in callbacks.RegisterDefaultCallbacks
+//@   requires previous-pipeline-closed: writePipeline == 1 ==> commitRegistered == 1 [C05]
+//@   do writePipeline = 0
+//@ event call (*callbacks).Raw
+//@   in callbacks.RegisterDefaultCallbacks
+//@   requires previous-pipeline-closed: writePipeline == 1 ==> commitRegistered == 1 [C05]
+//@   do writePipeline = 0
+//@ event call (*processor).Register
+//@   in callbacks.RegisterDefaultCallbacks
+//@   do registeredInPipeline = registeredInPipeline + 1
+//@ event call (*callback).Register
+//@   in callbacks.RegisterDefaultCallbacks
+//@   do registeredInPipeline = registeredInPipeline + 1
+//@   do commitRegistered = ite(arg1 == "gorm:commit_or_rollback_transaction", 1, commitRegistered)
+//@ site unconditional-callbacks-sit-inside-the-transaction
+//@   match call gorm.(*processor).Register
+//@   in callbacks.RegisterDefaultCallbacks
+//@   min-sites 20
+//@   assert not-first-in-a-write-pipeline: writePipeline == 1 ==> registeredInPipeline >= 1 [C05,C13]
+//@   assert not-after-the-commit: writePipeline == 1 ==> commitRegistered == 0 [C05,C13]
+//@ site transaction-callbacks-bracket-the-pipeline
+//@   match call gorm.(*callback).Register
+//@   in callbacks.RegisterDefaultCallbacks
+//@   min-sites 6
+//@   assert begin-first-commit-later: (registeredInPipeline == 0 && arg1 == "gorm:begin_transaction") || (registeredInPipeline >= 1 && commitRegistered == 0 && arg1 == "gorm:commit_or_rollback_transaction") [C05,C13]
+//@   assert in-a-write-pipeline: writePipeline == 1 [C05]
+//@ func RegisterDefaultCallbacks
+//@   tags C05 C13
+//@   assumes ghost-state-starts-closed: writePipeline == 0
+//@   ensures last-pipeline-closed: writePipeline == 1 ==> commitRegistered == 1
